@@ -104,7 +104,7 @@ theorem reg_count_push_reg (l : List Msg) (h : Msg.reg ∉ l) : (l ++ [Msg.reg])
   simp [List.count_append, List.count_eq_zero.mpr h]
 
 theorem reg_count_push_ev (l : List Msg) (a : Nat) : (l ++ [Msg.ev a]).count Msg.reg = l.count Msg.reg := by
-  simp [List.count_append, List.count_cons]
+  simp [List.count_append]
 
 theorem reg_mem_push_ev (l : List Msg) (a : Nat) : Msg.reg ∈ l ++ [Msg.ev a] ↔ Msg.reg ∈ l := by
   simp
